@@ -120,20 +120,20 @@ theorem func_env_mem {dur e : Expr} {x : String} (hx : x ∈ dedup (e.vars.filte
   simp only [noT, List.mem_filter, List.mem_append]
   exact ⟨Or.inr this.1, this.2⟩
 
-theorem bw_func_avoid (hE : EClass E) {N : List String} {σ : Scope} (hG : Good E N σ) (id ch dur e meas cons cm)
-    (hcv : cons = [] ∨ ¬ E .constraintViolation) (ht : "t" ∉ dur.vars)
-    (h : ∀ x ∈ parameterNames (.func id ch dur e meas cons), x ∈ N) :
+theorem bw_func_avoid' (hE : EClass E) {N : List String} {σ : Scope} (hG : Good E N σ) (id ch dur e meas cons cm)
+    (hcv : cons = [] ∨ ¬ E .constraintViolation)
+    (hdN : ∀ x ∈ dur.vars, x ∈ N) (heN : ∀ x ∈ e.vars, x ≠ "t" → x ∈ N) (hcN : ∀ x ∈ consVars cons, x ∈ N) :
     Avoid E (buildWaveform (.func id ch dur e meas cons) σ cm) := by
   have hS : SubSc E := hE.sub
   rw [buildWaveform]
   have hc : Avoid E (validateCons cons σ.look) :=
-    avoid_validateCons hS hcv (fun x hx => hG.look x (h x (by simp [parameterNames, hx])))
+    avoid_validateCons hS hcv (fun x hx => hG.look x (hcN x hx))
   have hf : Avoid E σ.forceAll := hG.forceAll
-  have hd : Avoid E (σ.eval dur) := hG.eval hS (fun x hx => h x (by
-    have : x ≠ "t" := fun hxt => ht (hxt ▸ hx)
-    simp [parameterNames, noT, hx, this]))
-  have hl : ∀ x ∈ dedup (e.vars.filter (· ≠ "t")), Avoid E (σ.look x) := fun x hx =>
-    hG.look x (h x (by simp only [parameterNames, List.mem_append]; exact Or.inl (Or.inl (func_env_mem hx))))
+  have hd : Avoid E (σ.eval dur) := hG.eval hS hdN
+  have hl : ∀ x ∈ dedup (e.vars.filter (· ≠ "t")), Avoid E (σ.look x) := fun x hx => by
+    have := mem_dedup.mp hx
+    simp only [List.mem_filter, decide_eq_true_eq] at this
+    exact hG.look x (heN x this.1 this.2)
   have hev : ∀ (env : List (String × Rat)), Avoid E (e.eval (fun x => match env.lookup x with
       | some v => .ok v | none => .error .valueError)) := by
     intro env
@@ -147,6 +147,17 @@ theorem bw_func_avoid (hE : EClass E) {N : List String} {σ : Scope} (hG : Good 
     exact avoid_iff.mpr (fun e' he' => by cases he'; exact avoid_iff.mp (hl _ ‹_›) _ heq)
   · rename_i heq
     exact avoid_iff.mpr (fun e' he' => by cases he'; exact avoid_iff.mp (hev _) _ heq)
+
+theorem bw_func_avoid (hE : EClass E) {N : List String} {σ : Scope} (hG : Good E N σ) (id ch dur e meas cons cm)
+    (hcv : cons = [] ∨ ¬ E .constraintViolation) (ht : "t" ∉ dur.vars)
+    (h : ∀ x ∈ parameterNames (.func id ch dur e meas cons), x ∈ N) :
+    Avoid E (buildWaveform (.func id ch dur e meas cons) σ cm) :=
+  bw_func_avoid' hE hG id ch dur e meas cons cm hcv
+    (fun x hx => h x (by
+      have : x ≠ "t" := fun hxt => ht (hxt ▸ hx)
+      simp [parameterNames, noT, hx, this]))
+    (fun x hx hne => h x (by simp [parameterNames, noT, hx, hne]))
+    (fun x hx => h x (by simp [parameterNames, hx]))
 
 theorem bw_func_congr {N : List String} {σ σ' : Scope} (hR : Rel N σ σ') (id ch dur e meas cons cm)
     (ht : "t" ∉ dur.vars)
